@@ -4,7 +4,6 @@ import (
 	"errors"
 	"fmt"
 	"io/fs"
-	"os"
 	"path/filepath"
 	"strings"
 )
@@ -37,7 +36,7 @@ func (interp *Interpreter) importSrc(rPath, importPath string, skipTest bool) (s
 	} else if i := strings.LastIndex("/"+importPath, "/vendor/"); i >= 0 {
 		// As for the go tool, a vendored package is imported by its path below the vendor directory.
 		return "", fmt.Errorf("must be imported as %s", importPath[i+len("vendor/"):])
-	} else if dir, rPath, err = interp.pkgDir(interp.context.GOPATH, rPath, importPath); err != nil {
+	} else if dir, rPath, err = interp.pkgDir(interp.context.GOPATH, interp.mainRoot(rPath), importPath); err != nil {
 		// Try again, assuming a root dir at the source location.
 		if rPath, err = interp.rootFromSourceLocation(); err != nil {
 			return "", err
@@ -182,21 +181,41 @@ func (interp *Interpreter) importSrc(rPath, importPath string, skipTest bool) (s
 // rootFromSourceLocation returns the path to the directory containing the input
 // Go file given to the interpreter, relative to $GOPATH/src.
 // It is meant to be called in the case when the initial input is a main package.
+// The root is noRoot if the input is not a file.
 func (interp *Interpreter) rootFromSourceLocation() (string, error) {
 	sourceFile := interp.name
-	if sourceFile == DefaultSourceName {
-		return "", nil
+	if sourceFile == DefaultSourceName || sourceFile == "" {
+		return noRoot, nil
 	}
-	wd, err := os.Getwd()
+	pkgDir, err := filepath.Abs(filepath.Dir(sourceFile))
 	if err != nil {
 		return "", err
 	}
-	pkgDir := filepath.Join(wd, filepath.Dir(sourceFile))
-	root := strings.TrimPrefix(pkgDir, filepath.Join(interp.context.GOPATH, "src")+"/")
-	if root == wd {
+	goSrc, err := filepath.Abs(filepath.Join(interp.context.GOPATH, "src"))
+	if err != nil {
+		return "", err
+	}
+	root := strings.TrimPrefix(pkgDir, goSrc+string(filepath.Separator))
+	if root == pkgDir {
 		return "", fmt.Errorf("package location %s not in GOPATH", pkgDir)
 	}
 	return root, nil
+}
+
+// noRoot is the root of the dependencies of a package which is not located below GOPATH/src.
+const noRoot = ".."
+
+// mainRoot returns the root of the dependencies of the package of root rPath. It is rPath, except
+// for the main package given to the interpreter: its imports are resolved from its location, as the
+// ones of any other package. The vendor directories apply only to the packages located below them.
+func (interp *Interpreter) mainRoot(rPath string) string {
+	if rPath != mainID {
+		return rPath
+	}
+	if root, err := interp.rootFromSourceLocation(); err == nil {
+		return root
+	}
+	return noRoot
 }
 
 // pkgDir returns the absolute path in filesystem for a package given its import path
@@ -204,6 +223,10 @@ func (interp *Interpreter) rootFromSourceLocation() (string, error) {
 func (interp *Interpreter) pkgDir(goPath string, root, importPath string) (string, string, error) {
 	rPath := filepath.Join(root, "vendor")
 	dir := filepath.Join(goPath, "src", rPath, importPath)
+	if root == noRoot {
+		// No vendor directory applies.
+		root, rPath, dir = "", "", filepath.Join(goPath, "src", importPath)
+	}
 
 	if isDir(interp.opt.filesystem, dir) {
 		return dir, rPath, nil // found!
